@@ -90,6 +90,14 @@ theorem close_releases_all (s : St) : (close s).pools = [] ∧ (close s).alive =
   intro e he
   simp [close, he]
 
+/-- **K9** (known finding, in the model as in the code) Close() releases the pools but leaves the timers of
+    the MultiEndpoints armed: a MultiEndpoint [a, b] with a switching delay that was told "b available", then
+    "a available", has a delayed switch pending, and still has it after Close() -/
+theorem close_leaves_timers :
+    let s1 := (update init "m" [("m", some ["a", "b"])] [] (fun _ => false) 5).1
+    let s3 := notifyAll (notifyAll s1 "b" true) "a" true
+    (close s3).pools = [] ∧ (close s3).mes.any (fun p => p.2.timers.any fun t => !t.stopped) = true := by decide
+
 /-- **C15** an RPC goes through the pool of the endpoint that is current for the MultiEndpoint
     named in its context, or for the default one when the context names none or an unknown one -/
 theorem rpc_routes_current (s : St) (name : Option String) (e : String) (h : rpc s name = some e) :
